@@ -78,7 +78,7 @@ type FuncInfo struct {
 	LocalInit  []InitViolation // R-INIT violations on Fresh objects of non-zero-valid types
 	// roots that may have been written before each call instruction executes
 	MayRootsBefore map[ssa.Instruction]map[Root]bool
-	Untracked  int             // reads through a variable index (outside R-INIT)
+	Untracked      int // reads through a variable index (outside R-INIT)
 }
 
 type Analysis struct {
@@ -89,6 +89,9 @@ type Analysis struct {
 	// ProblemFn[i] is the function problem i arose in (nil = whole program)
 	ProblemFn []*ssa.Function
 	Order     []*ssa.Function
+	// AliasByEvaluation: "function short name" -> true for exported functions whose behaviour with aliased
+	// arguments is decided by evaluation in another rule (Swap(v,v)); their pairs seed no demand on callees.
+	AliasByEvaluation map[string]bool
 }
 
 func (a *Analysis) problem(f *ssa.Function, in ssa.Instruction, format string, args ...interface{}) {
@@ -180,12 +183,12 @@ func addPV(dst []PVal, v PVal) ([]PVal, bool) {
 func (fi *FuncInfo) RootType(r Root) types.Type {
 	switch r.Kind {
 	case KParam:
-		if r.Index < len(fi.Fn.Params) {
-			return pointee(fi.Fn.Params[r.Index].Type())
+		if fs := load.Formals(fi.Fn); r.Index < len(fs) {
+			return pointee(fs[r.Index].Type())
 		}
 	case KElem:
-		if r.Index < len(fi.Fn.Params) {
-			if s, ok := fi.Fn.Params[r.Index].Type().Underlying().(*types.Slice); ok {
+		if fs := load.Formals(fi.Fn); r.Index < len(fs) {
+			if s, ok := fs[r.Index].Type().Underlying().(*types.Slice); ok {
 				return pointee(s.Elem())
 			}
 		}
@@ -213,13 +216,13 @@ func (fi *FuncInfo) RootType(r Root) types.Type {
 func (fi *FuncInfo) RootName(r Root) string {
 	switch r.Kind {
 	case KParam:
-		if r.Index < len(fi.Fn.Params) {
-			return fi.Fn.Params[r.Index].Name()
+		if fs := load.Formals(fi.Fn); r.Index < len(fs) {
+			return fs[r.Index].Name()
 		}
 		return fmt.Sprintf("param%d", r.Index)
 	case KElem:
-		if r.Index < len(fi.Fn.Params) {
-			return fi.Fn.Params[r.Index].Name() + "[i]"
+		if fs := load.Formals(fi.Fn); r.Index < len(fs) {
+			return fs[r.Index].Name() + "[i]"
 		}
 		return fmt.Sprintf("param%d[i]", r.Index)
 	case KGlobal:
@@ -286,13 +289,10 @@ func constInt(v ssa.Value) (int, bool) {
 
 func (fi *FuncInfo) pointsTo() {
 	f := fi.Fn
-	for i, p := range f.Params {
+	for i, p := range load.Formals(f) {
 		if isPtrLike(p.Type()) {
 			fi.Pts[p] = []PVal{{Loc: Loc{Root: Root{Kind: KParam, Index: i}}}}
 		}
-	}
-	if len(f.FreeVars) > 0 {
-		fi.A.problem(f, nil, "function has free variables")
 	}
 	changed := true
 	set := func(v ssa.Value, pvs []PVal) {
@@ -504,12 +504,15 @@ func (a *Analysis) calleeSummary(c ssa.CallInstruction) (sum *Summary, callee *s
 
 // translate maps a callee location to caller locations at a call site.
 func (fi *FuncInfo) translate(c ssa.CallInstruction, once bool, l Loc) []Loc {
-	args := c.Common().Args
+	args := load.Actuals(c)
+	if once {
+		args = load.OnceActuals(c)
+	}
 	switch l.Root.Kind {
 	case KGlobal, KGPointee:
 		return []Loc{l}
 	case KParam:
-		if once || l.Root.Index >= len(args) {
+		if l.Root.Index >= len(args) {
 			return nil
 		}
 		var out []Loc
@@ -521,7 +524,7 @@ func (fi *FuncInfo) translate(c ssa.CallInstruction, once bool, l Loc) []Loc {
 		}
 		return out
 	case KElem:
-		if once || l.Root.Index >= len(args) {
+		if l.Root.Index >= len(args) {
 			return nil
 		}
 		var out []Loc
@@ -571,7 +574,7 @@ func (fi *FuncInfo) translatePV(c *ssa.Call, k int, pv PVal) []PVal {
 		return []PVal{pv}
 	}
 	var out []PVal
-	args := c.Common().Args
+	args := load.Actuals(c)
 	if pv.Loc.Root.Kind == KParam && pv.Loc.Root.Index < len(args) {
 		for _, apv := range fi.operand(args[pv.Loc.Root.Index]) {
 			if apv.Loc.Root.Kind == KNil {
